@@ -8,7 +8,7 @@
 (* roll-over).  This module specifies the receiver over such a history:      *)
 (*                                                                         *)
 (*   Deliver(m)  one call of parse_authn_request_response with message m     *)
-(*   Tick        the clock passes the NotOnOrAfter of the messages           *)
+(*   Tick        the clock leaves the validity window of the messages        *)
 (*   Roll        metadata is reloaded: the issuer's signing key is replaced  *)
 (*                                                                         *)
 (* Messages are fixed texts (same identifiers, same time stamps, same        *)
@@ -24,7 +24,10 @@
 (* certificate, remember that a time stamp was judged valid) that TLC shows  *)
 (* to violate HistoryIndependent -- the vacuity controls of this module.     *)
 (* Every behaviour of the memoryless design is replayed into one real        *)
-(* Saml2Client and each verdict compared with Oracle.                        *)
+(* Saml2Client and each verdict compared with Oracle.  With Levels =          *)
+(* {"request"} the same module describes an identity provider receiving      *)
+(* signed requests (C10): keys are the requester's, the window is the        *)
+(* one-day IssueInstant window.                                              *)
 (***************************************************************************)
 EXTENDS Naturals, Sequences, FiniteSets, TLC, Json
 
